@@ -23,6 +23,8 @@ ASSUME = [
     "again with a new local listener), and after the port object of a successful listen() was stopped (the service exists: Tor is not "
     "asked again and the listener is bound on the local port the service forwards to; none_relisten_busy: that port cannot be bound any "
     "more: listen fails with the bind error and leaves nothing open)",
+    "fault subscribe: Tor answers the subscription to its descriptor events (SETEVENTS ... HS_DESC) with 552 and accepts everything else: "
+    "listen fails with that error once the creation command is answered, no listener stays open",
     "fault cancel_wait: the caller cancels the Deferred listen() returned (as a timeout put on it would) during the descriptor wait: "
     "listen must fail (once the subscription has been given up) and close the local listener, never hand out a port object",
     "every configuration x fault is also run with another HS_DESC listener on the same connection (the application's own): giving up the "
@@ -42,11 +44,13 @@ def run(pid, tier, seed):
                 continue
             if cfg.startswith("fsauth_") and fault not in ("config", "bind", "reject", "disconnect_create"):
                 continue
+            if cfg == "eph2key_retry" and fault == "subscribe":
+                continue        # (the earlier attempt of that configuration would meet the refused subscription first)
             for noise in ("", "up", "fail", "fetchfail"):
                 traces.append(ol.replay(cfg, fault, noise))
             if fault in ol.MODEL_FAULT:
                 continue
-            if fault != "disconnect_unsub" and not cfg.startswith("str_"):       # (a connection the endpoint makes for itself has no other users)
+            if fault not in ("disconnect_unsub", "subscribe") and not cfg.startswith("str_"):       # (a connection the endpoint makes for itself has no other users)
                 # the same with somebody else listening to HS_DESC on the connection as well
                 traces.append(ol.replay(cfg, fault, "", others=True))
                 traces.append(ol.replay(cfg, fault, "up", others=True))
